@@ -39,35 +39,49 @@ def run_config(chk, config):
                   {"rule": "key 1 = MD5(attribute type | secret | random vector)", "got": sorted(first), "spec": spec["first_key"]},
                   {"obligation": "%s: key 1 input order = type(2) | secret | RV" % name})
         shapes = set(c["shape"] for c in chain)
-        rels = set((c["rel"], repr(c["len"])) for c in chain)
-        chk.oblig(shapes == {want_chain} and rels == {(-B, str(B))}, "chain-key | %s" % name,
+        rels = set((c["rel"], repr(c["len"])) for c in chain if c["rel"] != "unlinked")
+        if any(c["rel"] == "unlinked" for c in chain):
+            chk.notes.append("undecided clause (C12): %s stores its chain digests and uses them elsewhere; key block position not decided" % name)
+        chk.oblig(shapes == {want_chain} and rels <= {(-B, str(B))} and set(repr(c["len"]) for c in chain) == {str(B)}, "chain-key | %s" % name,
                   "%s: chain key input is %s over block offsets %s, RFC 2661 4.3 says %s with the previous %d-octet block" % (name, sorted(shapes), sorted(rels, key=str), spec["chain_key"], B),
                   {"rule": "key i = MD5(secret | block i-1)", "got": sorted(shapes), "offsets": sorted(rels, key=str)},
                   {"obligation": "%s: key i input = secret | buffer[16(i-1),16i)" % name, "loops": len(chain)})
-        dirs = set(c["back"] for c in chain)
         xs = xor_facts(eng, X, chain)
+        # keys computed before any block is XORed chain on the original buffer (fine for reveal, wrong for hide)
+        early = [c for c in chain if xs and all(c["lid"] in x["done"] for x in xs) and not any(set(x["lid"] for x in xs) & set(c["done"]))]
+        walked = [c for c in chain if c not in early]
+        dirs = set(c["back"] for c in walked)
+        if None in dirs:
+            chk.notes.append("undecided clause (C12): %s walk direction of the chain not understood" % name)
         firsts = [x for x in xs if x["kind"] == "first"]
         first_lids = set(x["lid"] for x in firsts)
-        chain_lids = set(c["lid"] for c in chain)
+        chain_lids = set(c["lid"] for c in walked)
         if name == "hide":
-            cipher = dirs == {False} and bool(firsts) and all(first_lids & set(c["done"]) for c in chain)
+            cipher = not early and dirs <= {False, None} and bool(firsts) and all(first_lids & set(c["done"]) for c in walked)
             why = "ascending walk with block 0 encrypted first: block i-1 already holds ciphertext"
         else:
-            cipher = dirs == {True} and bool(firsts) and not any(first_lids & set(c["done"]) for c in chain) and \
-                any(chain_lids & set(x["done"]) for x in firsts)
-            why = "descending walk with block 0 decrypted last: block i-1 still holds ciphertext"
+            cipher = dirs <= {True, None} and bool(firsts) and not any(first_lids & set(c["done"]) for c in chain) and \
+                (not walked or any(chain_lids & set(x["done"]) for x in firsts))
+            why = "descending walk (or keys taken before any XOR) with block 0 decrypted last: block i-1 still holds ciphertext"
         chk.oblig(cipher, "ciphertext-chaining | %s" % name,
                   "%s chains on a block that does not hold ciphertext at that point (walk direction %s)" % (name, ["down" if d else "up" for d in dirs]),
                   {"rule": "c_{i-1} is the previous CIPHERTEXT block", "walk_downwards": sorted(dirs)},
                   {"obligation": "%s: %s" % (name, why)})
-        badx = [x for x in xs if not (x["aligned"] and x["j"] == (0, B - 1) and x["digest_is_latest"] and x["kind"] in ("first", "chain"))]
+        if any(not x["known_digest"] for x in xs):
+            chk.notes.append("undecided clause (C12): %s XORs with stored digests; XOR alignment of those loops not decided" % name)
+        badx = [x for x in xs if x["known_digest"] and not (x["aligned"] and x["j"] == (0, B - 1) and x["kind"] in ("first", "chain"))]
         chk.oblig(not badx and bool(xs), "xor | %s" % name, "%s: block XOR is not octet-by-octet with the block's own key" % name, {},
                   {"obligation": "%s: block i XOR MD5(key i), 16 octets" % name})
     # every block is keyed and XORed (coverage), and reveal accepts every original length that fits
-    from hiding import coverage_facts
+    from hiding import coverage_semantic
     for name, eng_, X_ in (("hide", engh, H), ("reveal", engr, R)):
         f_, ch_ = key_facts(eng_, X_)
-        cp = coverage_facts(eng_, X_, ch_, xor_facts(eng_, X_, ch_))
+        cp, und = coverage_semantic(eng_, X_, ch_)
+        for u in und:
+            chk.notes.append("undecided clause (C12): %s %s" % (name, u))
+        for x in xor_facts(eng_, X_, ch_):
+            if x["j"] != (0, B - 1):
+                cp.append("XOR loop covers key octets %s, not 0..%d" % (x["j"], B - 1))
         chk.oblig(not cp, "coverage | %s" % name, "%s does not process every block/octet: %s" % (name, cp[:2]),
                   {"rule": "each later block is XORed with MD5(secret, previous ciphertext block): all blocks 1..n-1", "problems": cp},
                   {"obligation": "%s: every block is processed" % name})
